@@ -527,3 +527,7 @@ func c12AVLShapes(minNodes, maxNodes int) {
 func VF_C12_avl_shapes_quick()    { c12AVLShapes(5, 8) }
 func VF_C12_avl_shapes_thorough() { c12AVLShapes(5, 10) }
 
+
+// one member named by both pairs of a ZADD (and again in a second command): the pairs apply one after
+// the other
+func VF_C12_prog_same_member() { c12Prog(2, 1, 2, 10) }
